@@ -22,20 +22,24 @@ TESTS=$(cat $S/tests.txt)
 rm -rf $S
 echo "seed $NAME: demo rc with change=$RCM without=$RCO ; tests: $TESTS"
 # run our checks against it
-git -C /repo apply $D/patch.diff || { echo "patch does not apply to /repo"; exit 3; }
+# the seeded change is applied to a scratch worktree of /repo's HEAD (never to /repo itself while other runs read it)
+TR=${SEED_REPO:-/tmp/repo_clean}
+[ -d $TR ] || git -C /repo worktree add -q $TR HEAD
+git -C $TR checkout -q --detach $(git -C /repo rev-parse HEAD) && git -C $TR checkout -- .
+git -C $TR apply $D/patch.diff || { echo "patch does not apply"; exit 3; }
 RES=""
 for P in $PROP $EXTRA; do
-  OUT=$(cd /verif && ./check $P --tier quick 2>&1); RC=$?
+  OUT=$(cd /verif && VERIF_REPO=$TR ./check $P --tier quick 2>&1); RC=$?
   echo "--- check $P rc=$RC"; echo "$OUT" | grep -E "VIOLATION|failed obligation|UNDECIDED|KNOWN" | head -8
   RES="$RES $P:rc=$RC"
 done
-git -C /repo checkout -- .
+git -C $TR checkout -- .
 python3 - "$D" "$PROP" "$NAME" "$RCM" "$RCO" "$TESTS" "$RES" <<'PY'
 import json,sys,os
 d,prop,name,rcm,rco,tests,res=sys.argv[1:8]
 notes=open(os.path.join(d,'notes.txt')).read() if os.path.exists(os.path.join(d,'notes.txt')) else ''
 json.dump({"seed":name,"breaks_property":prop,"needs_to_manifest":notes[:1500],
  "confirmed":{"demo_exit_with_change":int(rcm),"demo_exit_without_change":int(rco),"existing_tests_with_change":tests},
- "our_checks":res.strip(),"ran":"tools/seedtest.sh (demo compiled against patched and pristine sources; ctest in the scratch worktree; ./check <prop> --tier quick on /repo with the patch applied, then git checkout)"},
+ "our_checks":res.strip(),"ran":"tools/seedtest.sh (demo compiled against patched and pristine sources; ctest in the scratch worktree; ./check <prop> --tier quick with VERIF_REPO pointing at a scratch worktree of /repo HEAD that has the patch applied; reverted afterwards)"},
  open(os.path.join(d,'meta.json'),'w'),indent=1)
 PY
